@@ -20,7 +20,7 @@ func init() {
 		Explanation: "TAB-PRIORITY decides, from treeSort's source, that top-level nodes are ordered by a *stable* sort whose comparator is the strict `>` on the looked-up priorities of the two elements; that every priority key is a node kind the compiler knows; that every node kind whose compile-case defines something at load time (emits GLOBALFUNC / SETMETHOD / GLOBALSTRUCT or writes a global at compile time) is hoisted (priority > 0), in the order package ≥ import > type > {const, method, function} > 0 > init; and that no other node kind is moved (so statements and initialisers keep their relative source order). JOIN checks joinFiles drops exactly the package clause of every file after the first. Not decided: that a compile-time alias may refer to a later alias; fs.Glob's file order.",
 		Assumptions: []string{"sort.SliceStable is stable", "constants cannot depend on variables or functions (Go's constant-expression rule), which is why hoisting `const` above initialisers is unobservable"},
 		Quick: []ruleDef{
-			{"TAB-PRIORITY", 28, ruleTabPriority},
+			{"TAB-PRIORITY", 17, ruleTabPriority},
 			{"LOAD-TYPEDEPS", 2, ruleLoadTypeDeps},
 			{"JOIN", 2, ruleJoinFiles},
 			{"JOIN-IMPORTS", 2, ruleJoinImports},
